@@ -133,7 +133,8 @@ def plans(tier, seed):
     pal = seed % 3
     light = [("SX", 0, False, False), ("MX", 2, True, False), ("SX", 1, True, True)]
     if tier == "quick":
-        jobs = [({"pset": 0, "d": 1, "variants": variants("quick")}, [(lab, s) for _, lab, s in all_specs(3, 3, 0, pal)]),
+        jobs = [({"pset": 0, "d": 1, "variants": variants("quick")}, [(lab, s) for _, lab, s in all_specs(3, 3, 0, pal)]
+                 + [(f"harness:{k}", s) for k, s in harness_specs(pal).items()]),
                 ({"pset": 0, "d": 1, "variants": light}, [(lab, s) for _, lab, s in all_specs(3, 3, 1, pal)])]
         bounds = {"shapes": "(n,m)<=(3,3): base+uniform configurations with 11 variants, c<=1 with 3 variants",
                   "value_deviation": 1, "palette": pal}
